@@ -317,6 +317,31 @@ def rule_parse_error_positions(ck):
                                 f"(line:char {line(want)}), the span starts at {line(first[0]) if first and first[0] is not None else None}", construct="parse error position")
 
 
+def rule_token_init(ck):
+    """every token class that has its own __init__ hands its two position arguments to Token.__init__ (a token without ctx_start /
+    ctx_end turns the next diagnostic about it into an AttributeError)"""
+    repo = ck.repo
+    n = 0
+    for q in repo.subclasses("types::Token"):
+        if q == "types::Token":
+            continue
+        cls = repo.cls(q)
+        init = next((m for m in cls.body if isinstance(m, ast.FunctionDef) and m.name == "__init__"), None)
+        if init is None:
+            continue
+        n += 1
+        params = [a.arg for a in init.args.args][1:3]
+        calls = [c for c in ast.walk(init) if isinstance(c, ast.Call) and isinstance(c.func, ast.Attribute) and c.func.attr == "__init__"
+                 and ((isinstance(c.func.value, ast.Call) and norm_text(c.func.value.func) == "super") or norm_text(c.func.value).endswith("Token"))]
+        ok = any([norm_text(a) for a in c.args[-2:]] == params or [norm_text(a) for a in c.args[:2]] == params for c in calls)
+        stores = {t.attr for a_ in ast.walk(init) if isinstance(a_, ast.Assign) for t in a_.targets if isinstance(t, ast.Attribute) and norm_text(t.value) == "self"}
+        ck.instance(("token-init", q), {"class": q, "passes positions on": ok}, fn=q + ".__init__")
+        if not ok and not {"ctx_start", "ctx_end"} <= stores:
+            ck.violation(init, f"{q.split('::')[1]}.__init__ neither calls Token.__init__({', '.join(params)}) nor stores ctx_start / ctx_end itself: the token has no source position", construct=f"token without position: {q.split('::')[1]}")
+    if n < 10:
+        ck.unknown(f"only {n} token classes with an __init__ of their own were found")
+
+
 def rule_render_columns(ck):
     """The graphical handler places its highlight with a cursor-column escape. Whatever the width of its gutter, moving the fault
     along one line must move the highlight by the same number of DISPLAY columns (a tab = four), and the excerpt must show the
@@ -376,6 +401,7 @@ def rule_render_columns(ck):
 
 
 def run(ck):
+    ck.run_rule("C17.init", "token classes pass their source positions to Token.__init__", 10, rule_token_init)
     ck.run_rule("C17.render", "graphical handler: the highlight follows the fault's display column (tab = 4), the excerpt shows the fault's line", 20, rule_render_columns)
     ck.run_rule("C17.perr", "faults planted in malformed statements: the first span of the first error starts at the offending token", 9, rule_parse_error_positions)
     ck.run_rule("C17.hoist", "nodes rebuilt by hoisting keep the spans of the text they stand for", 6, rule_hoist_spans)
